@@ -1,9 +1,10 @@
 #!/usr/bin/env python3
 """Keeps behaviour-preserving refactorings (produced by independent sub-agents in scratch worktrees) under
 /verif/refactorings/<id>/ and registers each as a 'silent' witness: every check must analyse the refactored
-program without a new report (thorough tier). Usage: keep_refacs.py <src-root> (expects <src-root>/Rn/out/k/)"""
+program without a new report (thorough tier). Usage: keep_refacs.py <src-root> [id-prefix] (expects <src-root>/Rn/out/k/)"""
 import glob, json, os, shutil, sys, re
 root = sys.argv[1]
+prefix = sys.argv[2] if len(sys.argv) > 2 else ""
 W = json.load(open("/verif/witnesses/witnesses.json"))
 have = {w.get("patch") for w in W}
 n = 0
@@ -11,7 +12,7 @@ for d in sorted(glob.glob(f"{root}/R*/out/*/")):
     if not os.path.exists(d + "patch.diff"):
         continue
     m = re.search(r"/(R\d+)/out/(\d+)/$", d)
-    rid = f"{m.group(1)}-{m.group(2)}"
+    rid = f"{prefix}{m.group(1)}-{m.group(2)}"
     dst = f"/verif/refactorings/{rid}"
     os.makedirs(dst, exist_ok=True)
     shutil.copy(d + "patch.diff", dst)
